@@ -21,7 +21,7 @@ DECIDED = [
     'R2 every solver attribute read while computing is assigned unconditionally on every entry (in _init_trajectory, '
     'before any callee reads it, or at construction from the immutable Config); every _integrate call is dominated '
     'by _init_trajectory; nothing else is stored on the solver; filter and wind sock are per-call locals',
-    'R3 nothing reachable from the entry points writes a global / class attribute / module container, uses a '
+    'R3 nothing reachable from the entry points writes a global / class attribute / module container, fills a container defined in a class body through self, hands on (stores / returns) an object of a mutable package class that was built once at import, uses a '
     'memoising decorator, a mutable default argument, random/time/environment/id, or iterates over a set; runtime-'
     'rebound globals read on the compute path are limited to the logging debug flag',
 ]
@@ -354,8 +354,88 @@ def check_shared_state(prog: Program, rep, eng: Effects, rule: str) -> None:
                         rep.fail(rule, f.module.path, n.lineno, f.qualname, f'reads-global:{r[1]}',
                                  f'{f.qualname} reads `{r[1]}`, a module global rebound at run time: the result depends '
                                  f'on process state, not only on the arguments')
+    # (e) a container defined in a class body (one object for all instances) that a reachable method fills or changes
+    #     through `self` / `cls` / the class name, never having given the instance its own
+    mutators = ('append', 'extend', 'insert', 'pop', 'remove', 'clear', 'sort', 'reverse', 'update', 'setdefault', 'popitem',
+                'add', 'discard', '__setitem__', '__delitem__')
+
+    def _container(v: Optional[ast.AST]) -> bool:
+        return isinstance(v, (ast.Dict, ast.List, ast.Set, ast.DictComp, ast.ListComp, ast.SetComp)) or (
+            isinstance(v, ast.Call) and (dotted(v.func) or '').split('.')[-1] in ('dict', 'list', 'set', 'defaultdict', 'OrderedDict',
+                                                                                   'deque', 'Counter'))
+    n_cls_containers = 0
+    for f in funcs:
+        if f.cls is None or not f.positional or f.module.name.startswith('py_ballisticcalc.visualize'):
+            continue
+        me = f.positional[0]
+        for n in walk_no_nested(f.node):
+            tgt = None
+            if isinstance(n, ast.Subscript) and isinstance(n.ctx, (ast.Store, ast.Del)):
+                tgt = n.value
+            elif isinstance(n, ast.Call) and isinstance(n.func, ast.Attribute) and n.func.attr in mutators:
+                tgt = n.func.value
+            if not (isinstance(tgt, ast.Attribute) and isinstance(tgt.value, ast.Name)
+                    and tgt.value.id in (me, f.cls.name, 'cls')):
+                continue
+            hit = prog.find_class_attr(f.cls, tgt.attr)
+            if hit is None or not _container(hit[1][1]):
+                continue
+            own = any(isinstance(x, ast.Attribute) and isinstance(x.ctx, ast.Store) and x.attr == tgt.attr
+                      and isinstance(x.value, ast.Name) and x.value.id == m_.positional[0]
+                      for c_ in prog.mro(f.cls) for m_ in c_.methods.values() if m_.positional for x in ast.walk(m_.node))
+            n_cls_containers += 1
+            if not own or tgt.value.id != me:
+                rep.fail(rule, f.module.path, n.lineno, f.qualname, f'class-container:{tgt.attr}',
+                         f'{f.qualname} changes `{norm(tgt)}`, a container defined once in the body of class {hit[0].name} and '
+                         f'shared by all its instances: `{norm(n)[:60]}` - what one object leaves there is seen by every other')
+    # (f) an object of a mutable package class built once at import (module level / class body) and handed on - stored
+    #     into an object or returned - by a reachable function: every holder shares that one object
+    quantity_names = set(C.dimension_classes(prog)) | {'AbstractDimension'}
+
+    def _mutable_instances(v: ast.AST) -> List[str]:
+        out_ = []
+        for c_ in ast.walk(v):
+            if isinstance(c_, ast.Call):
+                nm = (dotted(c_.func) or '').split('.')[0]
+                ci_ = next((k_ for m_ in prog.modules.values() for k_ in m_.classes.values() if k_.name == nm), None)
+                if ci_ is None or nm in quantity_names or prog.is_namedtuple(ci_):
+                    continue
+                if any(b_ in ('Enum', 'IntEnum', 'enum.Enum', 'enum.IntEnum') for k_ in prog.mro(ci_) for b_ in prog.base_names(k_)):
+                    continue
+                out_.append(nm)
+        return out_
+    shared_objs: Dict[Tuple[str, str], List[str]] = {}
+    for mod in prog.modules.values():
+        if mod.name.startswith('py_ballisticcalc.visualize') or mod.name.endswith('.example'):
+            continue
+        for gname, entries in mod.assigns.items():
+            for e_ in entries:
+                if e_[1] is not None and not isinstance(e_[1], ast.Lambda):
+                    mi = _mutable_instances(e_[1])
+                    if mi:
+                        shared_objs[(mod.name, gname)] = mi
+    for f in funcs:
+        if f.module.name.startswith('py_ballisticcalc.visualize'):
+            continue
+        for n in walk_no_nested(f.node):
+            if not (isinstance(n, ast.Name) and isinstance(n.ctx, ast.Load)) or n.id in f.params:
+                continue
+            home = prog.const_home(f.module, n.id)
+            if home is None or (home[0].name, home[1]) not in shared_objs:
+                continue
+            st_ = n
+            while st_ is not None and not isinstance(st_, ast.stmt):
+                st_ = parent(st_)
+            escapes = isinstance(st_, ast.Return) or (isinstance(st_, (ast.Assign, ast.AnnAssign, ast.AugAssign)) and any(
+                isinstance(t_, (ast.Attribute, ast.Subscript)) for t_ in (st_.targets if isinstance(st_, ast.Assign) else [st_.target])))
+            if escapes:
+                rep.fail(rule, f.module.path, n.lineno, f.qualname, f'shared-object:{home[1]}',
+                         f'{f.qualname} hands on `{home[1]}`, which holds {shared_objs[(home[0].name, home[1])][0]} object(s) built once '
+                         f'at import (`{norm(st_)[:70]}`): every result or shot that receives it shares the same mutable object, so '
+                         f'a change made through one is seen through all')
     if n_checked:
-        rep.ok(rule, 'py_ballisticcalc', f'{n_checked} functions reachable from the entry points inspected for shared state')
+        rep.ok(rule, 'py_ballisticcalc', f'{n_checked} functions reachable from the entry points inspected for shared state '
+               f'({n_cls_containers} uses of class-body containers, {len(shared_objs)} import-time objects of mutable classes)')
     # module-level mutable containers mutated by anybody reachable are caught by (a); memo dicts keyed by id():
     rep.extra['process_wide_writes_listed_not_flagged'] = sorted(set(listed))
 
